@@ -377,6 +377,8 @@ func (ex *Exec) newRef(st *State, hint string) string {
 	ex.setComp(st, compAlloc, sArr(sInt, sBool), mkStore(a, r, "true"))
 	ex.noteWrite(compAlloc, r)
 	ex.freshRefs[r] = true
+	// an object allocated by verified code is not known to the environment
+	ex.sc.assert(mkNot(mkSelect(ex.comp(st, "envowned", sArr(sInt, sBool)), r)))
 	return r
 }
 
